@@ -15,7 +15,7 @@ from . import env
 
 NUMF = ("x", "y", "z")
 SELF = ("p", "r")
-FLAVOURS = ("lambda", "def", "str", "named", "cached", "namedcached")
+FLAVOURS = ("lambda", "def", "str", "named", "cached", "namedcached", "lamdef", "factory")
 LEAF_Q = ("Sum", "Average", "Deviate", "Minimize", "Maximize")
 BINNERS = ("Bin", "SparselyBin", "CentrallyBin", "IrregularlyBin", "Categorize")
 COLLECTIONS = ("Label", "UntypedLabel", "Index", "Branch")
@@ -49,7 +49,7 @@ def qname(node, force=None):
     fl = force or node.get("qf", "lambda")
     if node.get("qf") == "fault":
         return "q"
-    if fl in ("lambda", "cached"):
+    if fl in ("lambda", "cached", "lamdef", "factory"):
         return None
     if fl == "def":
         return "q_" + node["f"]
@@ -75,9 +75,22 @@ def _wrong_value(node):
     return "not-a-number"
 
 
+def _wrong_value_np(node):
+    """A wrong-typed return value that is a numpy scalar (what a quantity computed with numpy hands back)."""
+    import numpy as np
+
+    k = node["k"]
+    if k == "Categorize":
+        return np.float64(3.5)
+    if k == "Bag":
+        return {"N": np.str_("not-a-number"), "N2": np.array([1.0]), "S": np.float64(3.5)}[node["range"]]
+    return np.str_("not-a-number")
+
+
 def _fault_quantity(node):
     f, f2 = node["f"], node.get("f2")
     wrong = _wrong_value(node)
+    wrong_np = _wrong_value_np(node)
     n2 = node["k"] == "Bag" and node["range"] == "N2"
 
     def q(d):
@@ -85,6 +98,8 @@ def _fault_quantity(node):
             FAULT["fired"] += 1
             if FAULT["mode"] == "raise":
                 raise InjectedFault("injected failure in the quantity of %s" % node["k"])
+            if FAULT["mode"] == "wrong-np":
+                return wrong_np
             return wrong
         return (d[f], d[f2]) if n2 else d[f]
 
@@ -105,8 +120,14 @@ def make_quantity(node, force=None):
         body = _lambda_src(node).split(":", 1)[1].strip()
         exec("def q_%s(d):\n    return %s\n" % (node["f"], body), ns)
         return ns["q_" + node["f"]]
+    if fl in ("lamdef", "factory") and not (node["k"] == "Bag" and node.get("range") == "N2"):
+        if fl == "lamdef":
+            # a default argument that is NaN (the "missing value" idiom); same function of the record
+            return eval("lambda d, missing=float('nan'): missing if d['%s'] is None else d['%s']" % (node["f"], node["f"]), ns)
+        # the factory idiom `lambda d, f=f: d[f]`: one code object, parametrised through the default
+        return eval("lambda d, f=%r: d[f]" % node["f"], ns)
     f = eval(_lambda_src(node), ns)
-    if fl == "lambda":
+    if fl in ("lambda", "lamdef", "factory"):
         return f
     if fl == "named":
         return named("n_" + node["f"], f)
